@@ -44,7 +44,26 @@ Fixpoint iso_from (relays : list (addr * addr)) (steps : list tstep_obs) : bool 
   | o :: r => forallb (iso_act relays (ts_ev o)) (ts_acts o) && iso_from (relays_step relays (ts_ev o)) r
   end.
 
-Definition iso_holds (steps : list tstep_obs) : bool := iso_from [] steps && dup_from [] steps.
+(* a ConnectionBind succeeds only for the user of the allocation the connection was announced to: another 5-tuple's user
+   can never take over (send through, receive from) a peer connection of somebody else's relayed address. The bookkeeping
+   (who owns which 5-tuple, which id was announced to whom) is the one of C16's predicate. *)
+Definition own_binds (st : kst) (e : tevent) (acts : list taction) : bool :=
+  forallb (fun a => match a, e with
+     | TBindSuccess _ _ k, TConnBind _ _ au _ =>
+         match ann_get k (k_ann st) with
+         | Some (c, _) => match au, user_get c (k_users st) with Some u, Some u' => (u =? u')%N | _, _ => false end
+         | None => false end
+     | TBindSuccess _ _ _, _ => false
+     | _, _ => true end) acts.
+Fixpoint own_from (st : kst) (steps : list tstep_obs) : bool :=
+  match steps with
+  | [] => true
+  | o :: r => own_binds st (ts_ev o) (ts_acts o) && own_from (snd (k_step st o)) r
+  end.
+Definition k_empty : kst :=
+  {| k_now := 0; k_users := []; k_perms := []; k_ann := []; k_bound := []; k_gone := []; k_relays := []; k_open := [] |}.
+
+Definition iso_holds (steps : list tstep_obs) : bool := iso_from [] steps && dup_from [] steps && own_from k_empty steps.
 
 Definition case := C16Check.case.
 Definition run (c : case) : verdict := (C16Check.agree_from tinit (tc_steps c), iso_holds (tc_steps c)).
